@@ -1,12 +1,16 @@
 ---------------------------- MODULE MC_Bullet ----------------------------
 (* C14 on the model: the bullet family (star, o, O at the start, the end or the middle of a run of   *)
-(* dashes) goes through the pipeline operators - the bullet's circle is merged with the          *)
+(* dashes, tildes, box-drawing strokes, or of bars, colons ...) goes through the pipeline operators - the bullet's circle is merged with the          *)
 (* neighbouring line into a marker line - and the model's document must satisfy the BulletOracle. *)
 EXTENDS Bridge, TLC, Json
-CONSTANTS MaxLen, MaxK
+CONSTANTS MaxLen, MaxK, HBodies, VBodies
 VARIABLES b, done
-Family == { [ch |-> c, pos |-> p, len |-> n, k |-> kk, n |-> nn, dir |-> d] :
-              c \in {42, 111, 79}, p \in {"start", "end", "mid"}, n \in 1..MaxLen, kk \in 0..MaxK, nn \in 0..1, d \in {"h", "v"} }
+Bodies(d) == IF d = "h" THEN HBodies ELSE VBodies
+\* (a lone colon or exclamation mark is text by the rules: dashed vertical runs start at length 2)
+Family == { f \in { [ch |-> c, pos |-> p, len |-> n, k |-> kk, n |-> nn, dir |-> d[1], body |-> d[2]] :
+                      c \in {42, 111, 79}, p \in {"start", "end", "mid"}, n \in 1..MaxLen, kk \in 0..MaxK, nn \in 0..1,
+                      d \in { dd \in {"h", "v"} \X (HBodies \cup VBodies) : dd[2] \in Bodies(dd[1]) } } :
+              ~(f.body \in {58, 33} /\ f.len < 2) }
 Init == b \in Family /\ done = FALSE
 Next == ~done /\ done' = TRUE /\ UNCHANGED b
 Rows == BulletRows(b)
